@@ -466,6 +466,15 @@ def extract_flags():
     src = inspect.getsource(dm.Manager._send_ping_reset_timer)
     flags["ping_timer_uses_delay"] = ".delay(" in src
     flags["ping_timer_uses_reset"] = ".reset(" in src
+    # C16: Outbound.send_if_connected (un-queued Ping/Pong/Ack) is guarded by exactly `if self._connection:`
+    # (in particular not by the flow-control flag `_paused`)
+    from wormhole._dilation import outbound as dout
+    fn = ast.parse(textwrap.dedent(inspect.getsource(dout.Outbound.send_if_connected))).body[0]
+    ifs = [n for n in ast.walk(fn) if isinstance(n, ast.If)]
+    sends = [n for n in ast.walk(fn) if isinstance(n, ast.Call) and _call_name(n) == "_connection.send_record"]
+    flags["send_if_connected_ignores_pause"] = (len(ifs) == 1 and len(sends) == 1
+                                                and ast.unparse(ifs[0].test) == "self._connection"
+                                                and any(n is sends[0] for b in ifs[0].body for n in ast.walk(b)))
     return flags
 
 
